@@ -56,6 +56,31 @@ CHECKS = {
         text="walk_wellformed / traverse_wellformed for every tree, trusted list and show mode; unsafe_marked / safe_iff_audit_empty tie each row to the audit; NodeInfo streams of the real visualize are compared with the model on generated archives and the property's sentences are evaluated on them; every zoo dump x trusted x show x colours must complete.",
         note="Trusted: Lean kernel; translator view facts (format / is_self_safe / is_safe / SKIPPED_TYPES / ListNode per loader); cyclic trees are only checked against the sentences (per-node audit of a cyclic graph differs from the unfolded tree); is_last not compared.",
         design="6/C13"),
+    "C04": dict(
+        technique="Lean 4 proof (dump refuses or load returns the same value, by mutual induction over a value grammar; negation witness for the recorded finding) + value-level differential correspondence + refuse-or-faithful oracle over a wide object grammar",
+        text="faithful_or_refuses_partial covers every nesting of the modelled containers (lists, tuples, namedtuples, subclasses, sets, frozensets, dicts with str/int/float/bool/numpy keys, defaultdicts, object arrays, objects) with opaque leaves; not_faithful_witness proves the full statement false for property-valued dict entries (known finding). The model's dump refusal, typed schema and loaded value are compared with the real dumps/loads on generated values; the oracle runs ~40 kinds of odd values and checks that dumping does not modify the object.",
+        note="Trusted: Lean kernel; hand-written value model (tied by correspondence); leaf codecs (numpy/scipy/RNG/float repr/json) as contracts; harness/compare.py. None keys and generic __reduce__ objects are outside the model grammar (oracle only).",
+        design="6/C04"),
+    "C05": dict(
+        technique="Lean 4 proof (supported values are never refused and round-trip; stability for every number of cycles by induction) + value-level correspondence + strict structural comparator on generated supported values",
+        text="roundtrip / roundtrip_stable / restore_key / key_texts_distinct for the supported grammar; every generated supported value (containers x keys x 18 dtypes x 9 shapes x layouts, numpy scalars, dtypes, masked, object arrays, 5 bit generators, 5 sparse formats as matrix and array, callables) is dumped, loaded, compared, re-cycled, and RNG streams are compared.",
+        note="Trusted: Lean kernel; value model tied by correspondence; library codecs as contracts exercised on every generated leaf.",
+        design="6/C05"),
+    "C06": dict(
+        technique="Lean 4 proof (heap-event model: with the memo pin, ids written in one dump are equal iff the objects are, for every allocation history; counter-history without the pin) + flow facts + identity-partition oracle under allocation stress",
+        text="ids_faithful quantifies over all event sequences of the heap model (arbitrary address reuse); without_pin_ids_collide shows the pin is necessary; flow_facts pins memoize-before-get_state, id from memoize, member names from memoize, single write, clear after; generated DAGs with shared mutable objects and hundreds of temporaries are dumped/loaded and the identity partitions compared.",
+        note="Trusted: Lean kernel; heap model (alloc/free/visit) as an abstraction of CPython's allocator; flow-fact patterns; load-side sharing is covered by the oracle and by construct caching in the io model.",
+        design="6/C06"),
+    "C07": dict(
+        technique="Lean 4 proof (object layer: an estimator with supported state round-trips, arbitrarily nested) + estimator-zoo oracle (state comparator, bitwise method outputs, default-trust census)",
+        text="state_preserved / composition_preserved are corollaries of the C05 round trip for obj nodes; all_estimators() unfitted, a seeded subset fitted (thorough: all, with hyper-parameters from _parameter_constraints), ten compositions; names reported untrusted must not belong to a documented family.",
+        note="PARTIAL by nature: scikit-learn's numerical behaviour is outside any Lean model; 'equal state => identical predictions' is a contract exercised on the zoo. Trusted: Lean kernel, comparator, family predicates.",
+        design="6/C07"),
+    "C12": dict(
+        technique="Lean 4 proof (member/reference bookkeeping: refs = members, no duplicate member, for every emission sequence) + flow facts on dump + exhaustive sink x compression matrix on the implementation",
+        text="refs_eq_members for all sequences of member writes / re-references; flow_facts: every *_get_state writes the header fields, get_state adds the id, root carries protocol+version, member names are flat, _save precedes any sink write and only fills its buffer; archives of zoo and generated objects are checked for zip validity, schema fields, refs<->members, flat names, and equality across 4 sinks x 7 compression settings.",
+        note="Trusted: Lean kernel; flow-fact AST patterns; zipfile codec as a contract.",
+        design="6/C12"),
 }
 
 PENDING_REASON = "not claimed yet: the model/check for this property is still being built in this round (see DESIGN.md section 11); it is not 'not applicable' in principle"
